@@ -438,6 +438,11 @@ void set_deschedule_after_unlock(std::uint32_t per_65536, std::int64_t max_ns) {
     if (max_ns > 0) detail::K.knobs.deschedule_max_ns = max_ns;
 }
 
+void set_deschedule(std::uint32_t per_65536, std::int64_t max_ns) {
+    if (!detail::sim()) return;
+    detail::K.knobs.deschedule_per_65536 = per_65536;
+    if (max_ns > 0) detail::K.knobs.deschedule_max_ns = max_ns;
+}
 namespace detail { void heartbeat_tick() { if ((K.stats.steps & 0x3fff) == 0 && g_heartbeat) g_heartbeat(); } }
 bool in_sim() { return sim(); }
 Knobs& knobs() { return K.knobs; }
